@@ -189,7 +189,7 @@ struct Renderer {
     std::string sp(int lo = 1) { if (plain) return " "; return std::string((size_t)(lo + (r.coin(1, 4) ? r.below(3) : 0)), ' '); }
     std::string col() { if (plain) return " : "; switch (r.below(5)) { case 0: return ":"; case 1: return ": "; case 2: return " :"; case 3: return "  :  "; default: return " : "; } }
     std::string idx(const Sel & s, const std::vector<std::string> & names, size_t max, bool mutHere) {
-        if (mutHere && mut.cls == "unknown_name") { static const char * u[] = {"zz9", "nosuch", "Q", "s99x", "star"}; return u[mut.arg % 5]; }
+        if (mutHere && mut.cls == "unknown_name") { static const char * u[] = {"zz9", "nosuch", "Q", "s99x", "star", "stale0", "stale0"}; return u[mut.arg % 7]; }
         if (mutHere && mut.cls == "index_out_of_range") return std::to_string(max + (size_t)(mut.arg % 2));
         if (s.all) return "*";
         if (!names.empty() && r.coin(2, 3)) return names[s.i];
@@ -253,6 +253,11 @@ struct Renderer {
             if (!plain && r.coin(1, 5)) pre.push_back("discount: 0.25");      // overridden by the later line
             pre.push_back("discount" + std::string(r.coin() ? ": " : " : ") + f.disc.txt);
         }
+        if (mut.cls == "unknown_name" && mut.arg % 7 >= 5) {
+            // names of an overridden declaration are gone: the later line replaces the whole map
+            auto stale = [&](const char * kw, size_t n) { std::string l = std::string(kw) + ":"; for (size_t i = 0; i < n; ++i) l += " stale" + std::to_string(i); pre.push_back(l); };
+            stale("states", f.S); stale("actions", f.A); if (f.pomdp || f.declareO) stale("observations", f.O);
+        }
         if (!(mut.cls == "missing_sizes" && mut.arg % 3 == 0)) {
             if (!plain && r.coin(1, 6)) pre.push_back("states: 7");             // overridden
             pre.push_back(decl("states", f.S, f.sn));
@@ -261,7 +266,7 @@ struct Renderer {
         if ((f.pomdp || f.declareO) && !(mut.cls == "missing_sizes" && mut.arg % 3 == 2 && f.pomdp)) pre.push_back(decl("observations", f.O, f.on));
         if (!plain && r.coin(1, 4)) { // preamble order is free, except that an overriding line must stay after the overridden one
             std::vector<std::string> a, b;
-            for (auto & l : pre) (l == "discount: 0.25" || l == "states: 7" ? a : b).push_back(l);
+            for (auto & l : pre) (l == "discount: 0.25" || l == "states: 7" || l.find("stale") != std::string::npos ? a : b).push_back(l);
             for (size_t i = b.size(); i > 1; --i) std::swap(b[i-1], b[r.below(i)]);
             pre = a; pre.insert(pre.end(), b.begin(), b.end());
         }
@@ -357,12 +362,16 @@ void runText(bool pomdp, const std::string & text, const std::function<void(Line
             for (size_t s = 0; s < m.getS(); ++s) for (size_t a = 0; a < m.getA(); ++a) for (size_t s1 = 0; s1 < m.getS(); ++s1) L << m.getTransitionProbability(s, a, s1);
             L << m.getS() * m.getA() * m.getO();
             for (size_t s = 0; s < m.getS(); ++s) for (size_t a = 0; a < m.getA(); ++a) for (size_t o = 0; o < m.getO(); ++o) L << m.getObservationProbability(s, a, o);
+            L << m.getS() * m.getA();
+            for (size_t s = 0; s < m.getS(); ++s) for (size_t a = 0; a < m.getA(); ++a) L << m.getExpectedReward(s, a, 0);
         } else {
             auto m = AIToolbox::MDP::parseCassandra(is);
             L << "cok" << m.getS() << m.getA() << (size_t)0 << m.getDiscount();
             L << m.getS() * m.getA() * m.getS();
             for (size_t s = 0; s < m.getS(); ++s) for (size_t a = 0; a < m.getA(); ++a) for (size_t s1 = 0; s1 < m.getS(); ++s1) L << m.getTransitionProbability(s, a, s1);
             L << (size_t)0;
+            L << m.getS() * m.getA();
+            for (size_t s = 0; s < m.getS(); ++s) for (size_t a = 0; a < m.getA(); ++a) L << m.getExpectedReward(s, a, 0);
         }
         std::puts("#stat model_constructed 1");
     } catch (const std::exception & e) { L << "cerr" << errClass(e); }
@@ -408,7 +417,7 @@ const char * CORNER = "# corner.MDP 3x3\n\nvalues: rewards\nstates: 4\nactions: 
 const char * EJS = "# ejs4.POMDP\n\nvalues: rewards\nstates: 3\nactions: 2\nobservations: 2\n\nT : 0\n0.1 0.1 0.8\n0.2 0.5 0.3\n0.7 0.1 0.2\n\nT : 1\n0.1 0.8 0.1\n0.7 0.1 0.2\n0.1 0.9 0.0\n\n"
     "O : 0\n0.7 0.3\n0.1 0.9\n0.4 0.6\n\nO : 1\n0.2 0.8\n0.4 0.6\n0.3 0.7\n\nR : 0 : 0 : * : * -1.0\nR : 0 : 1 : * : *  0.0\nR : 1 : 1 : * : * -1.0\n";
 
-const long NFIXED = 16;
+const long NFIXED = 17;
 
 void fixedCase(long idx) {
     switch (idx) {
@@ -431,6 +440,14 @@ void fixedCase(long idx) {
         case 12: runText(false, "states: a b\nactions: go\nT: go : a : b 1\nT: go : b : c 1\n", REJ("unknown_name")); break;
         case 13: runText(false, "states: 2\nactions: 1\nT: 0 : 0 : 2 1\n", REJ("index_out_of_range")); break;
         case 14: runText(false, "states: 2\nactions: 1\nT: 0\n0.5 0.5\n0.5 0.75\n", REJ("invalid_probability")); break;
+        case 15: {   // sizes beyond one byte / a few digits are taken in full
+            File f; f.S = 260; f.A = 1;
+            Stmt t; t.tbl = 'T'; t.form = 0; t.a.i = 0; t.d1.all = true; t.d3.i = 258; t.v = mkVal("1.0"); f.stmts.push_back(t);
+            Stmt q; q.tbl = 'R'; q.form = 0; q.a.all = true; q.d1.i = 259; q.d3.i = 257; q.v = mkVal("2.5"); f.stmts.push_back(q);
+            Rng r0(7); Renderer R{r0, f, Mut{}, true};
+            runText(false, R.render(), [&](Line & L) { emitStmts(L, f); });
+            break;
+        }
         default: runText(false, "states: 18446744073709551616\nactions: 1\nT: 0 : 0 : 0 1\n", ANY); break; // stoul out_of_range is swallowed: one state named "1844…"
     }
 }
